@@ -233,3 +233,103 @@ func TestC18RegressOpenFileSurvivesRenameAndLink(t *testing.T) {
 		}
 	})
 }
+
+// C19: slot sequence IDs wrap from 2^32-1 to 0 (RFC 8881 section
+// 2.10.6.1). New requests, retransmissions, a duplicate of a request in
+// flight and misordered sequence IDs on both sides of the wrap-around.
+func TestC19RegressSlotSequenceWrapAround(t *testing.T) {
+	runScriptWith(t, c19Profile(), 1, func(w *world) {
+		sess := w.bootstrap(w.clients[0])
+		inc := sess.inc
+		w.next(sess, 0, w.tLookup("a"), true, nil)
+		fh := w.fhOf("a")
+		sl := sess.slots[0]
+		w.presetSlot(slotRef{sess, 0}, maxU32-1)
+		// Nothing to replay at the slot's sequence ID.
+		w.sendSeq(sess, 0, maxU32-1, "misordered", w.tRemove("a"), true, nil, nil)
+		open := w.tOpen(inc, "a", "o1", accR|accW, "nocreate")
+		w.next(sess, 0, open, true, nil) // sequence 2^32-1
+		o := inc.opens["o1|"+string(fh)]
+		if o == nil || sl.lastSeq != maxU32 {
+			t.Fatalf("OPEN at sequence 2^32-1 was not executed")
+		}
+		w.sendSeq(sess, 0, maxU32, "replay", open, true, nil, sl.last)
+		w.sendSeq(sess, 0, 1, "misordered", w.tRemove("a"), true, nil, nil)        // two ahead, beyond the wrap
+		w.sendSeq(sess, 0, maxU32-1, "misordered", w.tRemove("a"), true, nil, nil) // one behind
+		read := w.tIO(inc, "READ", fh, mkStateID(o.seq, o.other), "cur")
+		orig := w.next(sess, 0, read, true, map[string]bool{"io": true}) // sequence 0
+		if w.parkOf(orig) == nil || orig.seq != 0 {
+			t.Fatalf("the READ at sequence 0 did not park")
+		}
+		w.sendSeq(sess, 0, 0, "dup", read, true, nil, orig)
+		w.sendSeq(sess, 0, maxU32, "stale_busy", open, true, nil, sl.last)
+		w.stepNo++
+		w.record("release", "the parked READ")
+		w.release(w.parkOf(orig))
+		w.sendSeq(sess, 0, 0, "replay", read, true, nil, sl.last)
+		w.sendSeq(sess, 0, 0, "false_retry", w.tRemove("a"), true, nil, nil)
+		w.sendSeq(sess, 0, maxU32, "misordered", w.tRemove("a"), true, nil, nil) // one behind, beyond the wrap
+		w.sendSeq(sess, 0, 2, "misordered", w.tRemove("a"), true, nil, nil)
+		w.next(sess, 0, w.tClose(inc, fh, mkStateID(o.seq, o.other), "cur"), true, nil) // sequence 1
+		for l, n := range map[string]int{"slot_sequence_wrapped": 1, "replay_at_wrap_around": 2, "misordered_at_wrap_around": 3, "inflight_duplicate_at_wrap_around": 1, "false_retry_rejected": 1, "retransmission_without_cached_reply_at_wrap_around": 0, "close_ok": 1} {
+			if w.labels[l] != n {
+				t.Fatalf("label %s = %d, expected %d: %v", l, w.labels[l], n, w.labels)
+			}
+		}
+	})
+}
+
+// C18: the seqid of a state ID wraps from 2^32-1 to 1 (RFC 8881 section
+// 8.2.2: zero is skipped, it means "the most recent one"); a seqid the
+// state ID had before the wrap is NFS4ERR_OLD_STATEID, one it has not had
+// yet is NFS4ERR_BAD_STATEID, on both sides of the wrap-around.
+func TestC18RegressStateIDSeqidWrapAround(t *testing.T) {
+	runScript(t, 1, func(w *world) {
+		sess := w.bootstrap(w.clients[0])
+		inc := sess.inc
+		w.next(sess, 0, w.tOpen(inc, "a", "o1", accR|accW, "nocreate"), true, nil)
+		fh := w.fhOf("a")
+		o := inc.opens["o1|"+string(fh)]
+		r := lockRange{offset: 0, length: 3, desc: "units [0,3)"}
+		w.next(sess, 0, w.tLock(inc, fh, true, mkStateID(o.seq, o.other), "cur", "L1", ltWrite, false, r), true, nil)
+		l := o.locks["L1"]
+		w.presetStateID(stateTarget{inc, o.other, o.String(), &o.seq, &o.preset}, maxU32-1)
+		w.presetStateID(stateTarget{inc, l.other, l.String(), &l.seq, &l.preset}, maxU32)
+		osid := func(seq uint32) nfsv4.Stateid4 { return mkStateID(seq, o.other) }
+		lsid := func(seq uint32) nfsv4.Stateid4 { return mkStateID(seq, l.other) }
+		expect := func(c *call, want nfsv4.Nfsstat4) {
+			if c.res.Status != want {
+				t.Fatalf("%s answered %s, expected %s", c.desc, shortStatus(c.res.Status), shortStatus(want))
+			}
+		}
+		// Open state: 2^32-2 -> 2^32-1 -> 1 -> 2.
+		expect(w.next(sess, 0, w.tDowngrade(inc, fh, osid(maxU32), "future", accR|accW), true, nil), nfsv4.NFS4ERR_BAD_STATEID)
+		expect(w.next(sess, 0, w.tDowngrade(inc, fh, osid(1), "future", accR|accW), true, nil), nfsv4.NFS4ERR_BAD_STATEID)
+		expect(w.next(sess, 0, w.tOpen(inc, "a", "o1", accR, "nocreate"), true, nil), nfsv4.NFS4_OK)
+		if o.seq != maxU32 {
+			t.Fatalf("open state ID is %d", o.seq)
+		}
+		expect(w.next(sess, 0, w.tClose(inc, fh, osid(maxU32-1), "old"), true, nil), nfsv4.NFS4ERR_OLD_STATEID)
+		expect(w.next(sess, 0, w.tDowngrade(inc, fh, osid(maxU32), "cur", accR|accW), true, nil), nfsv4.NFS4_OK)
+		if o.seq != 1 {
+			t.Fatalf("open state ID is %d after the wrap-around", o.seq)
+		}
+		expect(w.next(sess, 0, w.tClose(inc, fh, osid(maxU32), "old"), true, nil), nfsv4.NFS4ERR_OLD_STATEID)
+		expect(w.next(sess, 0, w.tClose(inc, fh, osid(maxU32-1), "old"), true, nil), nfsv4.NFS4ERR_OLD_STATEID)
+		expect(w.next(sess, 0, w.tClose(inc, fh, osid(2), "future"), true, nil), nfsv4.NFS4ERR_BAD_STATEID)
+		expect(w.next(sess, 0, w.tOpen(inc, "a", "o1", accW, "nocreate"), true, nil), nfsv4.NFS4_OK)
+		// Lock state: 2^32-1 -> 1 -> 2.
+		expect(w.next(sess, 0, w.tLockU(inc, fh, lsid(1), "future", r), true, nil), nfsv4.NFS4ERR_BAD_STATEID)
+		expect(w.next(sess, 0, w.tLock(inc, fh, false, lsid(maxU32), "cur", "", ltRead, false, lockRange{offset: 4, length: 1, desc: "units [4,5)"}), true, nil), nfsv4.NFS4_OK)
+		if l.seq != 1 {
+			t.Fatalf("lock state ID is %d after the wrap-around", l.seq)
+		}
+		expect(w.next(sess, 0, w.tLockU(inc, fh, lsid(maxU32), "old", r), true, nil), nfsv4.NFS4ERR_OLD_STATEID)
+		expect(w.next(sess, 0, w.tLockU(inc, fh, lsid(0), "seq0", r), true, nil), nfsv4.NFS4_OK)
+		w.next(sess, 0, w.tTestStateID(inc, []nfsv4.Stateid4{osid(maxU32), osid(2), osid(3), osid(0), lsid(maxU32), lsid(2), lsid(3)}), true, nil)
+		expect(w.next(sess, 0, w.tClose(inc, fh, osid(2), "cur"), true, nil), nfsv4.NFS4_OK)
+		if w.labels["stateid_seqid_wrapped"] != 2 || w.labels["stateid_rejected:old"] != 4 || w.labels["stateid_rejected:future"] != 4 {
+			t.Fatalf("script did not reach the intended states: %v", w.labels)
+		}
+	})
+}
